@@ -373,6 +373,23 @@ Example C09_nonvacuous :
      = [[]; [(1, CREATED)]; [(1, CREATED); (2, CREATED)]; [(1, STARTED); (2, CREATED)]; [(1, REPLACED); (2, STARTED)]].
 Proof. split; vm_compute; reflexivity. Qed.
 
+(* ---- heartbeat streams that break: a command pushed while the target store has no working stream is lost for good - it
+        never reaches a store later; a store that binds a new stream receives nothing on its own.  (The real
+        HeartbeatStreams is driven with failing streams and re-binding and everything any stream receives is observed;
+        monitor clauses command-delivered-without-running-operator / command-not-stamped-with-cached-epoch-and-leader.) ---- *)
+Theorem C09_unbound_store_receives_nothing :
+  forall c ms m, In m (inbox (send c ms)) ->
+    In m (inbox c) \/ (In m ms /\ existsb (Z.eqb (m_target_store m)) (unbound c) = false).
+Proof.
+  intros c ms m H. unfold send, upd in H. cbn [inbox] in H. apply in_app_or in H as [H|H]; [left; exact H|right].
+  apply filter_In in H as [H1 H2]. split; [exact H1|]. apply negb_true_iff in H2. exact H2.
+Qed.
+
+Theorem C09_rebind_delivers_nothing :
+  forall c st, b_sent (snd (ctl_step c (ERebind st))) = nil /\ inbox (fst (ctl_step c (ERebind st))) = inbox c
+               /\ running (fst (ctl_step c (ERebind st))) = running c.
+Proof. intros c st. repeat split. Qed.
+
 Print Assumptions C09_status_matrix_exact.
 Print Assumptions C09_end_status_absorbing.
 Print Assumptions C09_end_status_exact.
@@ -400,6 +417,8 @@ Print Assumptions C09_step_accounting.
 Print Assumptions C09_own_steps_never_stale.
 Print Assumptions C09_stale_test_keeps_operator.
 Print Assumptions C09_op_conf_ver_changed_is_sum.
+Print Assumptions C09_unbound_store_receives_nothing.
+Print Assumptions C09_rebind_delivers_nothing.
 Print Assumptions C09_tidy_plans_are_monotone.
 Print Assumptions C09_builder_joint_plans_monotone.
 Print Assumptions C09_own_steps_never_stale_joint_builder.
